@@ -407,6 +407,17 @@ fn run_stream_check(opts: &Opts, prop: Prop, known: &[Known]) -> (Vec<Phase>, BT
                     v.push((sweep::CorpusFrame { label: format!("foreign:L=5,crc={:06x}", target), bytes: f }, true));
                 }
             }
+            // payload ending in the CRC-24Q of what precedes it ("length counted the checksum")
+            for l in [3usize, 4, 9] {
+                let mut fr = vec![0xD3u8, 0, l as u8];
+                for i in 0..l - 3 {
+                    fr.push(0x42u8.wrapping_add(i as u8));
+                }
+                let c = refmodel::crc24q(&fr);
+                let mut q: Vec<u8> = fr[3..].to_vec();
+                q.extend_from_slice(&[(c >> 16) as u8, (c >> 8) as u8, c as u8]);
+                v.push((sweep::CorpusFrame { label: format!("foreign:L={},inner_crc", l), bytes: refmodel::make_frame(0, &q) }, true));
+            }
             // two-byte payloads = bare message numbers: boundaries of the standard (1001..1304 here),
             // unsupported, and the proprietary range 4001..4095; thorough: all 4096 numbers (framer only)
             let special: [u16; 18] = [0, 1, 999, 1000, 1001, 1005, 1077, 1230, 1304, 1305, 2047, 2048, 4000, 4001, 4072, 4094, 4095, 3999];
